@@ -289,6 +289,15 @@ func (s *Sched) choose() int {
 	}
 }
 
+// Last is the task of the goroutine released most recently, i.e. (because
+// exactly one goroutine runs between scheduling points) the task that is
+// running now.  Hook handlers use it to attribute anonymous hook points.
+func (s *Sched) Last() string {
+	s.mu.Lock()
+	defer s.mu.Unlock()
+	return s.last
+}
+
 // TraceHash identifies the interleaving that was executed.
 func (s *Sched) TraceHash() uint64 { return s.hash }
 func (s *Sched) Trace() []string   { return s.trace }
